@@ -1,0 +1,48 @@
+//go:build verif
+
+package interpreter
+
+// Instrumentation for the verification harness (build tag "verif"; not part of
+// normal builds). It adds no behaviour to the interpreter.
+
+// VerifExecuteLive runs the code path of Engine.Execute (createThread, execute,
+// afterError) with a debugger that, after every step, also hands obs the
+// thread's live data and alt stacks: the very slices the interpreter holds, not
+// the copies State() makes. The harness uses the addresses of their backing
+// arrays to see which items share storage. obs must not modify what it is given.
+func VerifExecuteLive(obs func(dstack, astack [][]byte), oo ...ExecutionOptionFunc) error {
+	opts := &execOpts{}
+	for _, o := range oo {
+		o(opts)
+	}
+
+	ld := &verifLiveDebugger{Debugger: opts.debugger, obs: obs}
+	if ld.Debugger == nil {
+		ld.Debugger = &nopDebugger{}
+	}
+	opts.debugger = ld
+
+	t, err := createThread(opts)
+	if err != nil {
+		return err
+	}
+	ld.t = t
+
+	if err := t.execute(); err != nil {
+		t.afterError(err)
+		return err
+	}
+
+	return nil
+}
+
+type verifLiveDebugger struct {
+	Debugger
+	t   *thread
+	obs func(dstack, astack [][]byte)
+}
+
+func (l *verifLiveDebugger) AfterStep(s *State) {
+	l.Debugger.AfterStep(s)
+	l.obs(l.t.dstack.stk, l.t.astack.stk)
+}
